@@ -27,6 +27,8 @@ struct Scenario {
     launched: Vec<String>,
     /// stdin (guess scenarios) or the stub command's stdout (known scenarios)
     content: Vec<u8>,
+    /// delta's own options (in front of a launched command)
+    opts: Vec<String>,
 }
 
 fn sv(a: &[&str]) -> Vec<String> {
@@ -80,15 +82,21 @@ fn rg_json(t: &mut Tape) -> Vec<u8> {
 
 fn gen_scenario(t: &mut Tape) -> Scenario {
     let other_parents: [&[&str]; 5] = [&["git", "show"], &["git", "blame", "zz.py"], &["rg", "bar"], &["git", "verif-neutral"], &["git", "log", "-p"]];
-    match t.weighted(&[2, 2, 2, 2, 2, 4, 3, 3]) {
-        0 => Scenario { name: "guess:git-grep", parent: sv(&["git", "grep", "foo"]), launched: vec![], content: grep_lines(t) },
-        1 => Scenario { name: "guess:rg", parent: sv(&["rg", "foo"]), launched: vec![], content: grep_lines(t) },
-        2 => Scenario { name: "guess:git-blame", parent: sv(&["git", "blame", "src/x.rs"]), launched: vec![], content: blame_lines(t) },
-        3 => Scenario { name: "guess:git-show-file", parent: sv(&["git", "show", "HEAD:src/x.rs"]), launched: vec![], content: rust_file(t) },
-        4 => Scenario { name: "guess:git-diff-word-diff", parent: sv(&["git", "diff", "--word-diff=color"]), launched: vec![], content: word_diff(t) },
-        5 => Scenario { name: "known:delta-rg", parent: sv(other_parents[t.below(other_parents.len())]), launched: sv(&["rg", "foo"]), content: rg_json(t) },
-        6 => Scenario { name: "known:delta-git-grep", parent: sv(other_parents[t.below(other_parents.len())]), launched: sv(&["git", "grep", "foo"]), content: grep_lines(t) },
-        _ => Scenario { name: "known:delta-git-blame", parent: sv(other_parents[t.below(other_parents.len())]), launched: sv(&["git", "blame", "src/x.rs"]), content: blame_lines(t) },
+    match t.weighted(&[2, 2, 2, 2, 2, 4, 3, 3, 3]) {
+        0 => Scenario { name: "guess:git-grep", parent: sv(&["git", "grep", "foo"]), launched: vec![], content: grep_lines(t), opts: vec![] },
+        1 => Scenario { name: "guess:rg", parent: sv(&["rg", "foo"]), launched: vec![], content: grep_lines(t), opts: vec![] },
+        2 => Scenario { name: "guess:git-blame", parent: sv(&["git", "blame", "src/x.rs"]), launched: vec![], content: blame_lines(t), opts: vec![] },
+        3 => Scenario { name: "guess:git-show-file", parent: sv(&["git", "show", "HEAD:src/x.rs"]), launched: vec![], content: rust_file(t), opts: vec![] },
+        4 => Scenario { name: "guess:git-diff-word-diff", parent: sv(&["git", "diff", "--word-diff=color"]), launched: vec![], content: word_diff(t), opts: vec![] },
+        5 => Scenario { name: "known:delta-rg", parent: sv(other_parents[t.below(other_parents.len())]), launched: sv(&["rg", "foo"]), content: rg_json(t), opts: vec![] },
+        6 => Scenario { name: "known:delta-git-grep", parent: sv(other_parents[t.below(other_parents.len())]), launched: sv(&["git", "grep", "foo"]), content: grep_lines(t), opts: vec![] },
+        8 => {
+            // a launched word diff: the word-diff test is the first question delta asks about its
+            // caller (side-by-side and line numbers are switched off for word diffs)
+            let o = t.ps(&["--side-by-side", "--line-numbers", "--side-by-side --line-numbers"]).split(' ').map(|s| s.to_string()).collect();
+            Scenario { name: "known:delta-git-diff-word-diff", parent: sv(other_parents[t.below(other_parents.len())]), launched: sv(&["git", "diff", "--word-diff=color"]), content: word_diff(t), opts: o }
+        }
+        _ => Scenario { name: "known:delta-git-blame", parent: sv(other_parents[t.below(other_parents.len())]), launched: sv(&["git", "blame", "src/x.rs"]), content: blame_lines(t), opts: vec![] },
     }
 }
 
@@ -113,6 +121,7 @@ impl Runner {
     fn run(&mut self, sc: &Scenario, parent: &[String], sched: &[String]) -> std::io::Result<Obs> {
         let _ = std::fs::remove_file(&self.trace);
         let mut args = sv(&["--no-gitconfig", "--paging=never"]);
+        args.extend(sc.opts.iter().cloned());
         args.extend(sc.launched.iter().cloned());
         let mut env = vec![("DELTA_VERIF_TRACE".to_string(), self.trace.display().to_string()), ("DELTA_VERIF_SCHED_TIMEOUT_MS".to_string(), "1500".to_string())];
         if !sched.is_empty() {
@@ -310,7 +319,7 @@ impl Prop for C20 {
         400
     }
     fn rule(&self) -> String {
-        "cases = scenario x generated input x forced schedules of the real binary (built with the ordering points of src/utils/process.rs): guess scenarios (parent process `git grep`, `rg`, `git blame f.rs`, `git show REV:f.rs`, `git diff --word-diff`, input on stdin) and known scenarios (`delta rg ..`, `delta git grep ..`, `delta git blame ..` with a stub command, under a parent process of another kind). The background thread's units [start] [determined] [locked, stored, done] are merged at generated positions into the main thread's sequence [set:before-lock] [set:locked, set:stored, set:done] [query#1] .. [query#Q] (Q learnt from a trace); per case: the critical section of the background thread placed in front of EVERY main unit and after the last one, both with an early and a late start, plus random position triples; only merges feasible under the mutex and the wait-while-pending rule are generated (a reference model of the protocol decides feasibility). Oracle: under every schedule the process exits 0 within the time limit (no query blocks forever) and stdout is byte-identical to that of the schedule 'background thread first'; for known scenarios it is also identical to the output under a neutral parent (the background guess never shows) ; the schedule must have been realised according to the recorded trace, else the run is counted inconclusive. Sensitivity witness per case: the output under a parent of another kind differs (guess scenarios). Non-trivial = known scenario with the background critical section between two queries, or guess scenario with query#1 waiting for the background thread; distinct by hash of (scenario, input, schedule).".to_string()
+        "cases = scenario x generated input x forced schedules of the real binary (built with the ordering points of src/utils/process.rs): guess scenarios (parent process `git grep`, `rg`, `git blame f.rs`, `git show REV:f.rs`, `git diff --word-diff`, input on stdin) and known scenarios (`delta rg ..`, `delta git grep ..`, `delta git blame ..`, `delta -s|-n git diff --word-diff` with a stub command, under a parent process of another kind). The background thread's units [start] [determined] [locked, stored, done] are merged at generated positions into the main thread's sequence [set:before-lock] [set:locked, set:stored, set:done] [query#1] .. [query#Q] (Q learnt from a trace); per case: the critical section of the background thread placed in front of EVERY main unit and after the last one, both with an early and a late start, plus random position triples; only merges feasible under the mutex and the wait-while-pending rule are generated (a reference model of the protocol decides feasibility). Oracle: under every schedule the process exits 0 within the time limit (no query blocks forever) and stdout is byte-identical to that of the schedule 'background thread first'; for known scenarios it is also identical to the output under a neutral parent (the background guess never shows) and to the output of delta run as the pager of that command with the same options (every query, also the first, sees the launched command); the schedule must have been realised according to the recorded trace, else the run is counted inconclusive. Sensitivity witness per case: the output under a parent of another kind differs (guess scenarios). Non-trivial = known scenario with the background critical section between two queries, or guess scenario with query#1 waiting for the background thread; distinct by hash of (scenario, input, schedule).".to_string()
     }
     fn assumptions(&self) -> Vec<String> {
         vec![
@@ -373,6 +382,16 @@ impl Prop for C20 {
         let neutral = sv(&["git", "verif-neutral"]);
         if known {
             let o = run!(&neutral, &[]);
+            // and it is what they see: delta as the *pager* of that very command (same options, the
+            // command's output on stdin, the command as the parent process) renders the same
+            let as_pager = Scenario { name: sc.name, parent: sc.launched.clone(), launched: vec![], content: sc.content.clone(), opts: sc.opts.clone() };
+            let p = match r.run(&as_pager, &as_pager.parent, &[]) {
+                Ok(o) => o,
+                Err(e) => return Verdict::Fail(Failure::new("INFRASTRUCTURE:spawn", format!("cannot run the binary: {}", e))),
+            };
+            if !p.timed_out && p.status == Some(0) && p.stdout != reference.stdout {
+                return fail("launched-command-not-seen", format!("`delta {} {}` renders the command's output differently from delta run as the pager of `{}` with the same options: some query did not see the launched command", sc.opts.join(" "), sc.launched.join(" "), sc.launched.join(" ")), json!({"launched": exec::printable(&reference.stdout[..reference.stdout.len().min(800)]), "as_pager": exec::printable(&p.stdout[..p.stdout.len().min(800)])}));
+            }
             if o.stdout != reference.stdout {
                 return fail("guess-shows-through", format!("`delta {}` renders differently under the parent process `{}` than under a neutral parent: the launched command is not what queries see", sc.launched.join(" "), sc.parent.join(" ")), json!({"under_parent": exec::printable(&reference.stdout[..reference.stdout.len().min(800)]), "under_neutral_parent": exec::printable(&o.stdout[..o.stdout.len().min(800)])}));
             }
